@@ -1513,7 +1513,7 @@ void HashMgrSim::execute_jump(const Plan &p, Env &e, RunResult &r)
         else
                 e.call((std::string("isal_") + d.name + "_ctx_mgr_init").c_str(), d.isal_init, { U(s.mgr) });
         const uint64_t thr = 1ull << k;
-        const uint64_t goal = thr + (uint64_t) (p.ops[0].c % (3 * d.block)) + 1;
+        const uint64_t goal = thr + d.block + 2 + (uint64_t) (p.ops[0].c % (2 * d.block));
         uint64_t pos = 0; // logical stream position = running total
         size_t opi = 0;
         auto segment = [&](uint64_t len, bool first, bool last) {
@@ -1564,7 +1564,7 @@ void HashMgrSim::execute_jump(const Plan &p, Env &e, RunResult &r)
                 e.ev(mix64(0x10ab, J));
         }
         // phase B: approach and cross 2^k as the long streams do, then LAST exactly at goal
-        int guard = 0;
+        int guard = 0, tiny_after = 0;
         while (pos < goal && guard++ < 200) {
                 const Op &o = p.ops[opi++ % p.ops.size()];
                 uint64_t dist = pos < thr ? thr - pos : goal - pos;
@@ -1581,13 +1581,17 @@ void HashMgrSim::execute_jump(const Plan &p, Env &e, RunResult &r)
                         case 4: len = dist + 1 + (o.c % (3 * d.block)); break;
                         default: len = (o.c % 2) ? std::max<uint64_t>(1, dist - 1) : dist + d.block; break;
                         }
+                } else if (goal - pos > 1 && tiny_after++ < 5) {
+                        // beyond 2^k: a few tiny non-final updates (they stay inside the pending block, one of them empty), then the rest
+                        len = tiny_after == 3 ? 0 : std::min<uint64_t>(1 + (uint64_t) (o.c % 40), goal - pos - 1);
+                        r.cov.hit("probe_tiny_update_beyond_2^k_after_counter_jump");
                 } else
                         len = dist;
                 if (len > goal - pos)
                         len = goal - pos;
-                if (len == 0)
+                if (len == 0 && !(pos >= thr && tiny_after == 3))
                         len = 1;
-                bool last = pos + len == goal;
+                bool last = pos + len == goal && len > 0;
                 if (pos < thr && pos + len >= thr)
                         r.cov.hit(strfmt("probe_crossed_2^%d_after_counter_jump", k));
                 segment(len, false, last);
